@@ -71,45 +71,73 @@ Lemma f12_interleaving_stores_both :
   length (abs (fst (run 4 cfg_nodup s0 [OWrite 1 8 None 8 5 2; OWrite 1 7 None 8 5 1]))) = 1%nat.
 Proof. vm_compute. repeat split; reflexivity. Qed.
 
-Lemma preach_trans cap a b c : preach cap a b -> preach cap b c -> preach cap a c.
+Lemma preach_old_trans cap a b c : preach_old cap a b -> preach_old cap b c -> preach_old cap a c.
 Proof. induction 1 as [|x y z Hs Hr IH]; intros H; [exact H|]. econstructor 2; [exact Hs|apply IH, H]. Qed.
 
-(* REFUTATION (finding F10), for EVERY channel capacity: cap + 1 writers and one rotation request reach a
-   deadlocked state of the lock/channel protocol *)
-Lemma f10_deadlock_reachable : forall cap, 0 < cap ->
-  exists s, preach cap {| p_blocked_senders := 0; p_queue := 0; p_worker_waits_write := false |} s /\ deadlocked cap s.
+(* The protocol of the pinned code (send().await while the storage lock is held; finding F10), for EVERY channel
+   capacity: cap + 1 writers and one rotation request reach a deadlocked state *)
+Lemma f10_old_protocol_deadlocks : forall cap, 0 < cap ->
+  exists s, preach_old cap proto_init s /\ deadlocked cap s.
 Proof.
-  intros cap Hc.
+  intros cap Hc. unfold proto_init.
   assert (Hfill : forall n q w, q + N.of_nat n <= cap ->
-            preach cap {| p_blocked_senders := 0; p_queue := q; p_worker_waits_write := w |}
+            preach_old cap {| p_blocked_senders := 0; p_queue := q; p_worker_waits_write := w |}
                        {| p_blocked_senders := 0; p_queue := q + N.of_nat n; p_worker_waits_write := w |}).
   { induction n as [|n IH]; intros q w Hq.
     - replace (q + N.of_nat 0) with q by lia. constructor.
     - econstructor 2.
-      + apply (PSend cap {| p_blocked_senders := 0; p_queue := q; p_worker_waits_write := w |}). cbn. lia.
+      + apply (POSend cap {| p_blocked_senders := 0; p_queue := q; p_worker_waits_write := w |}). cbn. lia.
       + cbn [p_blocked_senders p_queue p_worker_waits_write].
         replace (q + N.of_nat (S n)) with ((q + 1) + N.of_nat n) by lia. apply IH. lia. }
   exists {| p_blocked_senders := 1; p_queue := cap; p_worker_waits_write := true |}. split.
-  - eapply preach_trans; [apply (Hfill (N.to_nat cap) 0 false); lia|].
+  - eapply preach_old_trans; [apply (Hfill (N.to_nat cap) 0 false); lia|].
     replace (0 + N.of_nat (N.to_nat cap)) with cap by lia.
     econstructor 2.
-    { apply (PWorkerTake cap {| p_blocked_senders := 0; p_queue := cap; p_worker_waits_write := false |}); cbn; [lia|reflexivity]. }
+    { apply (POWorkerTake cap {| p_blocked_senders := 0; p_queue := cap; p_worker_waits_write := false |}); cbn; [lia|reflexivity]. }
     cbn [p_blocked_senders p_queue].
     econstructor 2.
-    { apply (PSend cap {| p_blocked_senders := 0; p_queue := cap - 1; p_worker_waits_write := true |}). cbn. lia. }
+    { apply (POSend cap {| p_blocked_senders := 0; p_queue := cap - 1; p_worker_waits_write := true |}). cbn. lia. }
     cbn [p_blocked_senders p_queue p_worker_waits_write]. replace (cap - 1 + 1) with cap by lia.
     econstructor 2; [|constructor].
     replace {| p_blocked_senders := 1; p_queue := cap; p_worker_waits_write := true |}
       with {| p_blocked_senders := p_blocked_senders {| p_blocked_senders := 0; p_queue := cap; p_worker_waits_write := true |} + 1;
               p_queue := cap; p_worker_waits_write := true |} by reflexivity.
-    apply (PBlock cap {| p_blocked_senders := 0; p_queue := cap; p_worker_waits_write := true |}). reflexivity.
+    apply (POBlock cap {| p_blocked_senders := 0; p_queue := cap; p_worker_waits_write := true |}). reflexivity.
   - unfold deadlocked. cbn. repeat split; lia.
 Qed.
 
-(* and a deadlocked state is a trap: the only possible move is one more writer blocking; nobody ever makes
-   progress again *)
-Lemma deadlocked_is_trap cap s : deadlocked cap s -> forall s', pstep cap s s' -> deadlocked cap s'.
+(* and there a deadlocked state is a trap: the only possible move is one more writer blocking *)
+Lemma old_deadlocked_is_trap cap s : deadlocked cap s -> forall s', pstep_old cap s s' -> deadlocked cap s'.
 Proof.
   intros (Hb & Hq & Hw) s' H. inversion H; subst; unfold deadlocked; cbn in *; try lia; try congruence.
   split; [lia|]. split; assumption.
+Qed.
+
+(* The protocol since commit 62ff185 (try_send): no writer ever waits in send while it holds the lock ... *)
+Lemma pstep_no_blocked cap s s' : pstep cap s s' -> p_blocked_senders s = 0 -> p_blocked_senders s' = 0.
+Proof. intros H H0. inversion H; subst; cbn; assumption || reflexivity. Qed.
+
+Lemma no_sender_ever_blocks cap s : preach cap proto_init s -> p_blocked_senders s = 0.
+Proof.
+  assert (G : forall a b, preach cap a b -> p_blocked_senders a = 0 -> p_blocked_senders b = 0).
+  { induction 1 as [|x y z Hs Hr IH]; intros H0; [exact H0|]. apply IH. eapply pstep_no_blocked; eauto. }
+  intros H. apply (G _ _ H). reflexivity.
+Qed.
+
+(* ... hence no reachable state is deadlocked, for every capacity and every number of writers ... *)
+Lemma never_deadlocked cap s : preach cap proto_init s -> ~ deadlocked cap s.
+Proof. intros H (Hb & _). rewrite (no_sender_ever_blocks cap s H) in Hb. lia. Qed.
+
+(* ... the queue never exceeds the capacity, and a worker waiting for the write lock is always granted it *)
+Lemma queue_bounded cap s : preach cap proto_init s -> p_queue s <= cap.
+Proof.
+  assert (G : forall a b, preach cap a b -> p_queue a <= cap -> p_queue b <= cap).
+  { induction 1 as [|x y z Hs Hr IH]; intros H0; [exact H0|]. apply IH. inversion Hs; subst; cbn in *; lia. }
+  intros H. apply (G _ _ H). cbn. lia.
+Qed.
+
+Lemma worker_gets_the_lock cap s : preach cap proto_init s -> p_worker_waits_write s = true ->
+  exists s', pstep cap s s' /\ p_worker_waits_write s' = false.
+Proof.
+  intros H Hw. eexists. split; [apply PWorkerGetsLock; [exact Hw | apply (no_sender_ever_blocks cap s H)]|reflexivity].
 Qed.
